@@ -161,6 +161,10 @@ package tlog
 //@   ensures ISTPROOF(A, o, m, lo, hi, n)
 //@   ensures RUNOLD(A, o, m, lo, hi, n, old) == MTH(lo, n)
 //@   induction hi - lo
+//@   hint K(n - lo)
+//@   hint K(hi - lo)
+//@   hint MTH(lo, n)
+//@   hint MTH(lo, hi)
 //@   trigger RUNNEW(A, o, m, lo, hi, n, old)
 //@   uses K_bounds K_same TL_nonneg node_injective
 //@   props C03
